@@ -1,3 +1,8 @@
 Require Extraction. Require Import ExtrOcamlBasic.
-From GV Require Import LRModel.
-Extraction "lr_model.ml" LRModel.run_case.
+From Coq Require Import List ZArith.
+From GV Require Import Sched Enum LRModel.
+Definition enum_case (cfg : list Z) (progs : list (list (list Z))) (depth budget : Z) :=
+  enum_case_gen glob loc tstep
+    (init (match cfg with n :: _ => Z.to_nat n | nil => O end) (match cfg with _ :: p => p | nil => nil end)
+          (map decode_prog progs)) depth budget.
+Extraction "lr_model.ml" LRModel.run_case enum_case.
